@@ -83,7 +83,9 @@ Record st := {
   proved : list (N * N * Z);           (* ghost: (user, factor, time of the verification) *)
   spent : list onetime;                (* ghost *)
   now : Z;                             (* seconds *)
-  fresh : N
+  fresh : N;
+  minted : list N                      (* ghost: the id of every one-time value ever handed out (challenge,
+                                          bootstrap OTP, push transaction), newest first *)
 }.
 
 Definition upd {A} (m : N -> A) (u : N) (a : A) : N -> A := fun x => if N.eqb x u then a else m x.
@@ -107,7 +109,7 @@ Record config := {
 Definition init : st :=
   {| issued := []; tokens := []; vip := []; txs := []; approved := [];
      chal := fun _ => None; last_totp := fun _ => 0%Z; boot := fun _ => None;
-     proved := []; spent := []; now := 0%Z; fresh := 0 |}.
+     proved := []; spent := []; now := 0%Z; fresh := 0; minted := [] |}.
 
 (* environment's view of presented values *)
 Inductive otpcode := VGood (owner : N) | VBad.                         (* VIP one-time code *)
@@ -172,19 +174,25 @@ Definition auth (k : config) (s : st) (cert : option N) (cs : list nat) (mask : 
 
 Definition set_issued (s : st) (l : list cookie) : st :=
   {| issued := l; tokens := tokens s; vip := vip s; txs := txs s; approved := approved s; chal := chal s;
-     last_totp := last_totp s; boot := boot s; proved := proved s; spent := spent s; now := now s; fresh := fresh s |}.
+     last_totp := last_totp s; boot := boot s; proved := proved s; spent := spent s; now := now s; fresh := fresh s; minted := minted s |}.
 Definition set_ghost (s : st) (p : list (N * N * Z)) (sp : list onetime) : st :=
   {| issued := issued s; tokens := tokens s; vip := vip s; txs := txs s; approved := approved s; chal := chal s;
-     last_totp := last_totp s; boot := boot s; proved := p; spent := sp; now := now s; fresh := fresh s |}.
+     last_totp := last_totp s; boot := boot s; proved := p; spent := sp; now := now s; fresh := fresh s; minted := minted s |}.
 Definition set_chal (s : st) (c : N -> option challenge) (fr : N) : st :=
   {| issued := issued s; tokens := tokens s; vip := vip s; txs := txs s; approved := approved s; chal := c;
-     last_totp := last_totp s; boot := boot s; proved := proved s; spent := spent s; now := now s; fresh := fr |}.
+     last_totp := last_totp s; boot := boot s; proved := proved s; spent := spent s; now := now s; fresh := fr; minted := minted s |}.
 Definition set_boot (s : st) (b : N -> option boototp) (fr : N) : st :=
   {| issued := issued s; tokens := tokens s; vip := vip s; txs := txs s; approved := approved s; chal := chal s;
-     last_totp := last_totp s; boot := b; proved := proved s; spent := spent s; now := now s; fresh := fr |}.
+     last_totp := last_totp s; boot := b; proved := proved s; spent := spent s; now := now s; fresh := fr; minted := minted s |}.
 Definition set_totp (s : st) (l : N -> Z) : st :=
   {| issued := issued s; tokens := tokens s; vip := vip s; txs := txs s; approved := approved s; chal := chal s;
-     last_totp := l; boot := boot s; proved := proved s; spent := spent s; now := now s; fresh := fresh s |}.
+     last_totp := l; boot := boot s; proved := proved s; spent := spent s; now := now s; fresh := fresh s; minted := minted s |}.
+
+(* a new one-time value: its id is `fresh s`, which is recorded as handed out *)
+Definition mint (s : st) : st :=
+  {| issued := issued s; tokens := tokens s; vip := vip s; txs := txs s; approved := approved s; chal := chal s;
+     last_totp := last_totp s; boot := boot s; proved := proved s; spent := spent s; now := now s;
+     fresh := fresh s + 1; minted := fresh s :: minted s |}.
 
 (* updateAuthCookieAuthlevel(w, r, username, authlevel): the LAST attached auth_cookie (the one
    checkAuth authenticated) is re-signed with the given level (which REPLACES the cookie's own; sub,
@@ -210,6 +218,9 @@ Definition tx_user (s : st) (tx : N) : option N :=
 Definition is_approved (s : st) (tx : N) : bool := existsb (N.eqb tx) (approved s).
 
 Definition totp_step (t : Z) : Z := (t / 30)%Z.
+
+(* maxAgeU2FVerifySeconds: the lifetime of a pending hardware-token challenge *)
+Definition chal_life : Z := 30.
 
 (* registrations u2fSignRequest/Response look at: U2F keys and WebAuthn keys alike *)
 Definition has_any_key (d : devices) : bool := has_u2f d || has_wa d.
@@ -259,7 +270,7 @@ Definition step_req (cert : option N) (fault : bool) (s : st) (o : op) : st * op
                   vip := {| vc := v; vuser := u; vtx := tx; vexp := (now s + vip_life k)%Z |} :: vip s;
                   txs := (tx, u) :: txs s; approved := approved s; chal := chal s;
                   last_totp := last_totp s; boot := boot s; proved := proved s; spent := spent s;
-                  now := now s; fresh := fresh s + 1 |}, None)
+                  now := now s; fresh := fresh s + 1; minted := fresh s :: minted s |}, None)
           end
       end
   | Approve tx =>
@@ -267,7 +278,7 @@ Definition step_req (cert : option N) (fault : bool) (s : st) (o : op) : st * op
       | Some u =>
           ({| issued := issued s; tokens := tokens s; vip := vip s; txs := txs s;
               approved := tx :: approved s; chal := chal s; last_totp := last_totp s; boot := boot s;
-              proved := (u, F_VIP, now s) :: proved s; spent := spent s; now := now s; fresh := fresh s |}, None)
+              proved := (u, F_VIP, now s) :: proved s; spent := spent s; now := now s; fresh := fresh s; minted := minted s |}, None)
       | None => (s, None)
       end
   | Poll cs v =>
@@ -311,8 +322,10 @@ Definition step_req (cert : option N) (fault : bool) (s : st) (o : op) : st * op
       | None => (s, None)
       | Some (u, l) =>
           if has_profile (devs k u) && has_any_key (devs k u) then
-            (set_chal s (upd (chal s) u (Some {| chid := fresh s; ch_wa := false; chexp := (now s + 30)%Z |}))
-                      (fresh s + 1), None)
+            (* u2f.NewChallenge: 32 random bytes — a value never handed out before; it REPLACES whatever
+               was pending for the user and lives chal_life seconds from now *)
+            (mint (set_chal s (upd (chal s) u (Some {| chid := fresh s; ch_wa := false; chexp := (now s + chal_life)%Z |}))
+                            (fresh s)), None)
           else (s, None)
       end
   | WaBegin cs =>
@@ -320,8 +333,8 @@ Definition step_req (cert : option N) (fault : bool) (s : st) (o : op) : st * op
       | None => (s, None)
       | Some (u, l) =>
           if has_any_key (devs k u) then
-            (set_chal s (upd (chal s) u (Some {| chid := fresh s; ch_wa := true; chexp := (now s + 30)%Z |}))
-                      (fresh s + 1), None)
+            (mint (set_chal s (upd (chal s) u (Some {| chid := fresh s; ch_wa := true; chexp := (now s + chal_life)%Z |}))
+                            (fresh s)), None)
           else (s, None)
       end
   | U2fFinish cs a =>
@@ -373,8 +386,8 @@ Definition step_req (cert : option N) (fault : bool) (s : st) (o : op) : st * op
         let dur' := if (dur <? 60)%Z then 60%Z else dur in
         if (86400 <? dur')%Z then (s, None)
         else if fault then (s, None)
-        else (set_boot s (upd (boot s) target (Some {| bserial := fresh s; bexp := (now s + dur')%Z |}))
-                       (fresh s + 1), None)
+        else (mint (set_boot s (upd (boot s) target (Some {| bserial := fresh s; bexp := (now s + dur')%Z |}))
+                             (fresh s)), None)
       else (s, None)
   | Bootstrap cs code =>
       match auth k s cert cs any_mask with
@@ -407,7 +420,7 @@ Definition step_req (cert : option N) (fault : bool) (s : st) (o : op) : st * op
       | Some (u, l) =>
           ({| issued := issued s; tokens := tokens s ++ [{| towner := u; texp := (now s + life)%Z |}];
               vip := vip s; txs := txs s; approved := approved s; chal := chal s; last_totp := last_totp s;
-              boot := boot s; proved := proved s; spent := spent s; now := now s; fresh := fresh s |}, None)
+              boot := boot s; proved := proved s; spent := spent s; now := now s; fresh := fresh s; minted := minted s |}, None)
       end
   | SendDoc cs tk =>
       match auth k s cert cs (webui k) with
@@ -427,7 +440,7 @@ Definition step_req (cert : option N) (fault : bool) (s : st) (o : op) : st * op
   | Tick dt =>
       ({| issued := issued s; tokens := tokens s; vip := vip s; txs := txs s; approved := approved s;
           chal := chal s; last_totp := last_totp s; boot := boot s; proved := proved s; spent := spent s;
-          now := (now s + Z.max 0 dt)%Z; fresh := fresh s |}, None)
+          now := (now s + Z.max 0 dt)%Z; fresh := fresh s; minted := minted s |}, None)
   | Req _ _ _ => (s, None)      (* wrappers do not nest *)
   end.
 
@@ -460,27 +473,40 @@ Definition fixed (d : N -> devices) (w : N) : config :=
      vip_life := 120; vip_expiry := true; poll_checks_user := true; totp_monotone := true;
      chal_expiry := true; chal_delete_wa := true; upgrade_checks_owner := true |}.
 
-(* ---- correspondence: per step, did the handler answer with success, and the (user, level) of
-        the cookie the server emitted.  Success of an operation that emits no cookie shows in the
-        state: a new transaction / challenge / OTP (fresh) or a new token. ---- *)
+(* ---- correspondence: per step, did the handler answer with success, the claims of the cookie the
+        server emitted, and the identity of the one-time value it handed out (a challenge, a bootstrap
+        OTP, a push transaction).  One-time values are identified by CONTENT: the harness numbers the
+        distinct byte strings it has ever been handed in order of first appearance, so a handler that
+        hands out bytes seen before reports the OLD number, while the model's begin operations always
+        mint `fresh s` (Proofs: never handed out before).  Success of an operation that emits no cookie
+        shows in the state: a new value (fresh) or a new token. ---- *)
 Definition changed (s s' : st) : bool :=
   negb (N.eqb (fresh s) (fresh s')) || negb (Nat.eqb (length (tokens s)) (length (tokens s'))).
 
-Definition step_obs (k : config) (s : st) (o : op) : st * (bool * option cookie) :=
+(* the id of the one-time value the step handed out *)
+Definition handed (s s' : st) : option N :=
+  match minted s' with
+  | i :: _ => if Nat.eqb (length (minted s')) (length (minted s)) then None else Some i
+  | [] => None
+  end.
+
+Definition obs := (bool * option cookie * option N)%type.
+
+Definition step_obs (k : config) (s : st) (o : op) : st * obs :=
   let (s', out) := step k s o in
   let ok := match (match o with Req _ _ o' => o' | _ => o end) with
             | Logout _ | Approve _ | Tick _ => true
             | _ => (match out with Some _ => true | None => false end) || changed s s'
             end in
-  (s', (ok, out)).
+  (s', (ok, out, handed s s')).
 
-Fixpoint run_obs (k : config) (s : st) (ops : list op) : list (bool * option cookie) :=
+Fixpoint run_obs (k : config) (s : st) (ops : list op) : list obs :=
   match ops with
   | [] => []
   | o :: r => let (s1, ob) := step_obs k s o in ob :: run_obs k s1 r
   end.
 
-(* ---- per-step (user, level) of the cookie the server emitted ---- *)
+(* ---- per-step claims of the cookie the server emitted ---- *)
 Definition out_eqb (m : option cookie) (o : option (N * N * Z * Z)) : bool :=
   match m, o with
   | None, None => true
@@ -488,16 +514,17 @@ Definition out_eqb (m : option cookie) (o : option (N * N * Z * Z)) : bool :=
   | _, _ => false
   end.
 
-Fixpoint outs_agree (ms : list (option cookie)) (os : list (option (N * N * Z * Z))) (i : nat) : list nat :=
-  match ms, os with
-  | m :: mr, o :: or => (if out_eqb m o then [] else [i]) ++ outs_agree mr or (S i)
-  | [], [] => []
-  | _, _ => [i]
-  end.
+Definition id_eqb (a b : option N) : bool :=
+  match a, b with Some x, Some y => N.eqb x y | None, None => true | _, _ => false end.
 
-Fixpoint obs_agree (ms : list (bool * option cookie)) (os : list (bool * option (N * N * Z * Z))) (i : nat) : list nat :=
+Definition observed := (bool * option (N * N * Z * Z) * option N)%type.
+
+Definition ob_eqb (m : obs) (o : observed) : bool :=
+  let '(mok, mc, mi) := m in let '(ok, c, i) := o in Bool.eqb mok ok && out_eqb mc c && id_eqb mi i.
+
+Fixpoint obs_agree (ms : list obs) (os : list observed) (i : nat) : list nat :=
   match ms, os with
-  | (mok, m) :: mr, (ok, o) :: or => (if Bool.eqb mok ok && out_eqb m o then [] else [i]) ++ obs_agree mr or (S i)
+  | m :: mr, o :: or => (if ob_eqb m o then [] else [i]) ++ obs_agree mr or (S i)
   | [], [] => []
   | _, _ => [i]
   end.
